@@ -1,7 +1,7 @@
 (* Props/C05.v — property C05: collection deltas are coherent with collection values at every tick.
    Statements only; every proof is one [exact].  The models are the mirrors of Coll.v / Window.v;
    a history is a list of engine cycles (time, mutations) at strictly increasing times. *)
-Require Import Base Coll Window CollFacts TsdFacts WindowFacts.
+Require Import Base Coll Window Fixed CollFacts TsdFacts WindowFacts FixedFacts.
 
 (* ================================================================== TSS *)
 (* [tss_trace tss_empty h] lists, for every cycle of the history h, the storage before the cycle, the
@@ -137,6 +137,22 @@ Theorem tsd_value_step_refuted :
 Proof. exact TsdFacts.tsd_value_step_refuted_l. Qed.
 Print Assumptions tsd_value_step_refuted.
 
+
+(* ================================================================== TSB / fixed TSL (TS<int> children) *)
+(* [f_value b i] is child i's value (None while it never ticked); [f_delta t b i] is child i's entry in
+   the parent's delta at time t.  value' = value with the delta applied, from all-invalid. *)
+Theorem fixed_step : forall n h, fincreasing MIN_DT h ->
+  forall a t ops b, In (a, t, ops, b) (f_trace (fixed_empty n) h) ->
+  forall i, f_value b i = match f_delta t b i with Some v => Some v | None => f_value a i end.
+Proof. exact FixedFacts.fixed_step_l. Qed.
+Print Assumptions fixed_step.
+
+Theorem fixed_delta_only_when_ticked : forall n h, fincreasing MIN_DT h ->
+  forall a t ops b, In (a, t, ops, b) (f_trace (fixed_empty n) h) ->
+  forall i v, f_delta t b i = Some v -> f_modified t b = true /\ f_value b i = Some v.
+Proof. exact FixedFacts.fixed_delta_valid_l. Qed.
+Print Assumptions fixed_delta_only_when_ticked.
+
 (* ================================================================== tick-count window *)
 (* [spec_whist h []] is the list of values pushed since the last clear according to the protocol
    (one tick per evaluation time; a clear may be followed by one push; anything else is rejected). *)
@@ -186,6 +202,15 @@ Example ex_d_trace :
                  sortz (tsd_modified_keys (snd (fst (fst x))) (snd x)), ks_cap (d_ks (snd x))))
       (tsd_trace tsd_empty ex_d)
   = [ ([5; 7], [5; 7], [], [5; 7], 8%nat); ([5], [], [7], [5], 8%nat); ([5], [], [], [5], 16%nat) ].
+Proof. vm_compute. split; [repeat split; reflexivity|reflexivity]. Qed.
+
+
+Example ex_fixed :
+  let h := [ (1, [FSet 0 5]); (2, [FSet 1 6; FSet 1 7]); (4, []); (5, [FSet 2 8; FSet 0 9]) ] in
+  fincreasing MIN_DT h /\
+  map (fun x => (map (f_value (snd x)) [0; 1; 2]%nat, map (f_delta (snd (fst (fst x))) (snd x)) [0; 1; 2]%nat)) (f_trace (fixed_empty 3) h)
+  = [ ([Some 5; None; None], [Some 5; None; None]); ([Some 5; Some 7; None], [None; Some 7; None]);
+      ([Some 5; Some 7; None], [None; None; None]); ([Some 9; Some 7; Some 8], [Some 9; None; Some 8]) ].
 Proof. vm_compute. split; [repeat split; reflexivity|reflexivity]. Qed.
 
 Example ex_window :
